@@ -226,6 +226,38 @@ def nest_events(quick):
     return evs
 
 
+# --------------------------------------------------------------------------- capsule (feature build)
+def capsule_cases(quick, rng):
+    cases = []
+    for sc in ((0, 2) if quick else (0, 1, 2, 3)):
+        n = sc + 1           # chunks of 1 MiB: the base file is ~75 KiB, each size class adds ~1.1 MB of incompressible data
+        def add(t):
+            cases.append({"fn": "capsule", "size_class": sc, "tamper": t})
+        add({"kind": "none", "k": 0})
+        hdr_bytes = [0, 3, 4, 6, 7, 8, 39, 40, 51, 52, 59, 60, 61, 63] if quick else list(range(64))
+        for k in hdr_bytes:
+            add({"kind": "flip_header", "k": k})
+        for k in (0, 10, 63):
+            add({"kind": "trunc_header", "k": k})
+        for k in range(n + 1):
+            add({"kind": "trunc_boundary", "k": k})
+        for k in range(n):
+            for byte in (0, 1, 2):
+                add({"kind": "trunc_in_len", "k": k, "byte": byte})
+                add({"kind": "flip_len", "k": k, "byte": byte})
+            add({"kind": "flip_len", "k": k, "byte": 3})
+            add({"kind": "trunc_in_chunk", "k": k})
+            for w in ("first", "mid", "last"):
+                add({"kind": "flip_chunk", "k": k, "where": w})
+            add({"kind": "dup", "k": k})
+            add({"kind": "drop", "k": k})
+        for k in range(n - 1):
+            add({"kind": "swap", "k": k})
+        for k in (0, 1, 2):
+            add({"kind": "append", "k": k})
+    return cases
+
+
 # --------------------------------------------------------------------------- model checking instances
 MC = {
     "C31": ("FooterScan", lambda q: cfg({"MaxTok": 3 if q else 4, "Big": BIG}, invariants=["ScanIsLastValid", "TocDescribed"])),
@@ -233,11 +265,12 @@ MC = {
                                        "MinResults": "{0, 1, 2}"}, invariants=["ContractHolds"])),
     "C35": ("Snippet", lambda q: cfg({"Gap": 1, "MaxChars": 3 if q else 4, "Windows": "{0, 2, 4}", "Maxes": "{0, 1, 2}", "OccStarts": "{0, 1, 3, 7}",
                                       "OccLens": "{0, 1, 2}", "MaxOcc": 2}, invariants=["ContractHolds"])),
+    "C29": ("Capsule", lambda q: cfg({"MaxChunks": 3 if q else 4}, invariants=["RoundTrip", "NeverWrongPlaintext", "TamperRejected"])),
     "C32": ("QueryLang", lambda q: cfg({"MaxDepth": 128, "BaseAtoms": '{"a", "b", "p"}' if q else '{"a", "b", "p", "t"}', "AstDepth": 2},
                                        invariants=["MeansWhatItSays"])),
 }
-GEN = {"C31": footer_cases, "C37": adaptive_cases, "C35": snippet_cases, "C32": query_cases}
-WHAT = {"C31": "find_last_valid_footer", "C37": "find_adaptive_cutoff / normalize_scores", "C35": "compute_snippet_slices",
+GEN = {"C29": capsule_cases, "C31": footer_cases, "C37": adaptive_cases, "C35": snippet_cases, "C32": query_cases}
+WHAT = {"C29": "encryption::lock_file / unlock_file", "C31": "find_last_valid_footer", "C37": "find_adaptive_cutoff / normalize_scores", "C35": "compute_snippet_slices",
         "C32": "parse_query + ParsedQuery::evaluate"}
 
 
@@ -248,7 +281,7 @@ def trace_cfg(debug=False):
 DRIFT = []
 
 
-def validate_chunk(lines, wd, tag, max_fail=12):
+def validate_chunk(lines, wd, tag, max_fail=40):
     """Validates one chunk of the recording; a rejected line is diagnosed (Debug run names the failed check), removed,
     and the rest is validated again, so one failure does not hide the others."""
     import re
@@ -282,7 +315,7 @@ def validate_chunk(lines, wd, tag, max_fail=12):
     return accepted, failures, len(lines)
 
 
-def validate_lines(lines, wd, tag, max_fail=12, jobs=8):
+def validate_lines(lines, wd, tag, max_fail=40, jobs=8):
     import concurrent.futures as cf
     if len(lines) < 200:
         return validate_chunk(lines, wd, tag, max_fail)
@@ -316,7 +349,10 @@ def run_prop(prop, tier, out: Outcome):
         for c in cases:
             f.write(json.dumps(c) + "\n")
     oj = os.path.join(wd, "out.ndjson")
-    p = run_harness(["func-run", cj, oj], timeout=3000)
+    if prop == "C29":
+        p = run_harness(["capsule-run", cj, oj], feat=True, timeout=3000)
+    else:
+        p = run_harness(["func-run", cj, oj], timeout=3000)
     if p.returncode != 0:
         raise ToolError("func-run failed: " + p.stderr[-2000:])
     lines = open(oj).read().splitlines()
@@ -328,6 +364,8 @@ def run_prop(prop, tier, out: Outcome):
         sig = {"engine": "func", "kind": "impl_to_spec", "fn": ev.get("ev"), "checks": fl["checks"]}
         if prop == "C32" and "nest" in ev.get("in", {}):
             sig["nest"] = ev["in"]["nest"]
+        if prop == "C29" and ev.get("in", {}).get("tamper", {}).get("kind") == "flip_header":
+            sig["header_byte"] = ev["in"]["tamper"]["k"]
         out.diverge(sig, "%s: the real function's output is not what the transcription / contract allows (failed: %s); input %s -> %s"
                     % (WHAT[prop], ", ".join(fl["checks"]), json.dumps(ev.get("in"))[:300], json.dumps(ev.get("out"))[:300]),
                     {"engine": "func", "case": ev.get("in")})
@@ -336,7 +374,9 @@ def run_prop(prop, tier, out: Outcome):
     if not failures and lines:
         ev = json.loads(lines[len(lines) // 2])
         o = ev["out"]
-        if prop == "C31":
+        if prop == "C29":
+            o["wrote"], o["same"], o["skipped"] = True, False, False
+        elif prop == "C31":
             o["cell"] = o.get("cell", 0) + 1
             o["found"] = True
         elif prop == "C37":
